@@ -26,19 +26,48 @@ def data(o, n):
     return bytes(byte(o + i) for i in range(n))
 
 
+def canon(v):
+    """Hashable image of an attribute value of a stream half."""
+    if v is None or isinstance(v, (bool, int, str, bytes)):
+        return v
+    if isinstance(v, bytearray):
+        return bytes(v)
+    if type(v).__name__ == "RangeSet":
+        return tuple((x.start, x.stop) for x in v)
+    if isinstance(v, (list, tuple)):
+        return tuple(canon(x) for x in v)
+    if isinstance(v, (set, frozenset)):
+        return tuple(sorted(map(repr, v)))
+    if isinstance(v, dict):
+        return tuple(sorted((repr(k), canon(x)) for k, x in v.items()))
+    return repr(v)
+
+
+def concrete_key(obj, history):
+    """Identity of a concrete state for the closure: *every* instance attribute
+    of the object (not a hand-picked list, so no attribute that influences later
+    behaviour can be merged away) plus the driver's history components."""
+    return (tuple(sorted((k, canon(v)) for k, v in vars(obj).items())), history)
+
+
+STOP_CODES = (3, 4)
+STOP_OPS = ("stop", "stopframe", "stopdeliv")
+
+
 # ------------------------------------------------------------------ receiver
 class Recv:
-    """A concrete receiver plus the two history bits the statement refers to."""
+    """A concrete receiver plus the history components the statement / the
+    environment refer to: end marker seen, reset accepted, and the number of
+    STOP_SENDING frames emitted whose fate has not been reported yet."""
 
     def __init__(self, stream_mod):
         self.r = stream_mod.QuicStreamReceiver(stream_id=0, readable=True)
         self.endSig = False
         self.resetAcc = False
+        self.stopInFlight = 0
 
     def key(self):
-        r = self.r
-        return (r.highest_offset, r.is_finished, r.stop_pending, bytes(r._buffer), r._buffer_start,
-                r._final_size, tuple((x.start, x.stop) for x in r._ranges), self.endSig, self.resetAcc)
+        return concrete_key(self.r, (self.endSig, self.resetAcc, self.stopInFlight))
 
     def abs(self):
         r = self.r
@@ -53,7 +82,9 @@ class Recv:
                 "final": -1 if r._final_size is None else r._final_size,
                 "highest": r.highest_offset, "finished": bool(r.is_finished),
                 "endSig": self.endSig, "resetAcc": self.resetAcc,
-                "stopPending": bool(r.stop_pending), "held": held}
+                "stopPending": bool(r.stop_pending),
+                "stopCode": -1 if r._stop_error_code is None else r._stop_error_code,
+                "stopInFlight": self.stopInFlight, "held": held}
 
 
 def recv_apply(S, x, op):
@@ -76,13 +107,17 @@ def recv_apply(S, x, op):
             return {"k": "Reset"} if type(ev).__name__ == "StreamReset" and ev.error_code == 7 \
                 else {"k": "Unexpected:" + repr(ev)}
         if op["op"] == "stop":
-            r.stop(3)
+            r.stop(op["code"])
             return {"k": "None"}
         if op["op"] == "stopframe":
             fr = r.get_stop_frame()
-            return {"k": "StopFrame"} if fr.error_code == 3 else {"k": "Unexpected:" + repr(fr)}
+            x.stopInFlight += 1
+            if type(fr).__name__ != "QuicStopSendingFrame" or fr.stream_id != 0 or not isinstance(fr.error_code, int):
+                return {"k": "Unexpected:" + repr(fr)}
+            return {"k": "StopFrame", "code": fr.error_code}
         if op["op"] == "stopdeliv":
             D = S["builder"].QuicDeliveryState
+            x.stopInFlight -= 1
             r.on_stop_sending_delivery(D.ACKED if op["acked"] else D.LOST)
             return {"k": "None"}
     except S["stream"].FinalSizeError:
@@ -92,7 +127,11 @@ def recv_apply(S, x, op):
     raise MachineryError("bad op")
 
 
-def recv_alphabet(N, x):
+def recv_alphabet(N, x, codes=STOP_CODES[:1], F=1):
+    """Every call the environment of a receiver can make in state x: any frame,
+    any reset, stop() with any code; a STOP_SENDING frame is requested only
+    while one is pending (connection.py _write_stop_sending_frame call site) and
+    its fate is reported only for a frame that was emitted."""
     ops = []
     for o in range(N + 1):
         for n in range(N + 1 - o):
@@ -100,11 +139,13 @@ def recv_alphabet(N, x):
                 ops.append({"op": "frame", "o": o, "n": n, "fin": fin})
     for fs in range(N + 1):
         ops.append({"op": "reset", "fs": fs})
-    ops.append({"op": "stop"})
-    if x.r.stop_pending:
+    for c in codes:
+        ops.append({"op": "stop", "code": c})
+    if x.r.stop_pending and x.stopInFlight < F:
         ops.append({"op": "stopframe"})
-    ops.append({"op": "stopdeliv", "acked": True})
-    ops.append({"op": "stopdeliv", "acked": False})
+    if x.stopInFlight > 0:
+        ops.append({"op": "stopdeliv", "acked": True})
+        ops.append({"op": "stopdeliv", "acked": False})
     return ops
 
 
@@ -113,15 +154,11 @@ class Send:
     def __init__(self, stream_mod):
         self.s = stream_mod.QuicStreamSender(stream_id=0, writable=True)
         self.outstanding = frozenset()
-        self.resetEmitted = False
+        self.resetInFlight = 0
         self.resetAcked = False
 
     def key(self):
-        s = self.s
-        return (s.buffer_is_empty, s.highest_offset, s.is_finished, s.reset_pending,
-                tuple((x.start, x.stop) for x in s._acked), s._acked_fin, bytes(s._buffer), s._buffer_fin,
-                s._buffer_start, s._buffer_stop, tuple((x.start, x.stop) for x in s._pending),
-                s._pending_eof, s._reset_error_code, self.outstanding, self.resetEmitted, self.resetAcked)
+        return concrete_key(self.s, (self.outstanding, self.resetInFlight, self.resetAcked))
 
     def abs(self):
         s = self.s
@@ -135,7 +172,7 @@ class Send:
                 "pending": sorted(pend), "pendingFin": bool(s._pending_eof), "acked": sorted(acked),
                 "ackedFin": bool(s._acked_fin), "highest": s.highest_offset,
                 "reset": s._reset_error_code is not None, "resetPending": bool(s.reset_pending),
-                "resetEmitted": self.resetEmitted, "resetAcked": self.resetAcked,
+                "resetInFlight": self.resetInFlight, "resetAcked": self.resetAcked,
                 "finished": bool(s.is_finished), "bufferEmpty": bool(s.buffer_is_empty),
                 "outstanding": sorted([list(f) for f in self.outstanding]),
                 "bufStart": s._buffer_start, "buf": list(s._buffer)}
@@ -164,11 +201,12 @@ def send_apply(S, x, op):
             return {"k": "None"}
         if op["op"] == "resetframe":
             fr = s.get_reset_frame()
-            x.resetEmitted = True
-            if fr.error_code != 9:
+            x.resetInFlight += 1
+            if type(fr).__name__ != "QuicResetStreamFrame" or fr.error_code != 9 or fr.stream_id != 0:
                 return {"k": "Unexpected:" + repr(fr)}
             return {"k": "ResetFrame", "finalSize": fr.final_size}
         if op["op"] == "resetdeliv":
+            x.resetInFlight -= 1
             s.on_reset_delivery(D.ACKED if op["acked"] else D.LOST)
             if op["acked"]:
                 x.resetAcked = True
@@ -194,9 +232,11 @@ def send_alphabet(N, x):
         for a in (True, False):
             ops.append({"op": "delivery", "f": list(f), "acked": a})
     ops.append({"op": "reset"})
-    if is_reset:
+    # a RESET_STREAM frame is requested only while one is pending and its fate
+    # is reported only for a frame that was emitted (connection.py call sites)
+    if is_reset and s.reset_pending:
         ops.append({"op": "resetframe"})
-    if is_reset and x.resetEmitted:
+    if x.resetInFlight > 0:
         for a in (True, False):
             ops.append({"op": "resetdeliv", "acked": a})
     return ops
@@ -246,39 +286,110 @@ def rangeset_edges(S, M):
 
 # ------------------------------------------------------------------- closure
 def closure(S, make, apply_, alphabet, N, limit):
+    """BFS over concrete object states.  Returns (edges, seen, parents): every
+    edge carries "sid", the id of its source state; parents[sid] = (parent sid,
+    op) gives a shortest call sequence from the initial state (for replays)."""
     init = make()
-    seen = {init.key(): init}
-    frontier = [init]
+    seen = {init.key(): (init, 0)}
+    parents = {0: None}
+    frontier = [(init, 0)]
     edges = []
     while frontier:
         nxt = []
-        for x in frontier:
+        for x, sid in frontier:
             pre = x.abs()
             for op in alphabet(N, x):
                 y = copy.deepcopy(x)
                 out = apply_(S, y, op)
-                edges.append(dict(op, pre=pre, out=out, post=y.abs()))
+                edges.append(dict(op, pre=pre, out=out, post=y.abs(), sid=sid))
                 k = y.key()
                 if k not in seen:
-                    seen[k] = y
-                    nxt.append(y)
+                    seen[k] = (y, len(seen))
+                    parents[seen[k][1]] = (sid, op)
+                    nxt.append(seen[k])
             if len(seen) > limit:
                 raise MachineryError("closure exceeds %d concrete states" % limit)
         frontier = nxt
-    return edges, seen
+    return edges, seen, parents
+
+
+def path_to(parents, sid):
+    ops = []
+    while parents[sid] is not None:
+        sid, op = parents[sid]
+        ops.append(op)
+    return ops[::-1]
 
 
 def random_edges(S, make, apply_, alphabet, N, rnd, runs, steps):
-    edges = []
-    for _ in range(runs):
+    """Seeded random call sequences; every edge carries (run, step) and
+    histories[run] is the list of calls of that run (for replays)."""
+    edges, histories = [], []
+    for run in range(runs):
         x = make()
-        for _ in range(steps):
+        hist = []
+        histories.append(hist)
+        for step in range(steps):
             ops = alphabet(N, x)
             op = rnd.choice(ops)
             pre = x.abs()
             out = apply_(S, x, op)
-            edges.append(dict(op, pre=pre, out=out, post=x.abs()))
-    return edges
+            hist.append(op)
+            edges.append(dict(op, pre=pre, out=out, post=x.abs(), run=run, step=step))
+    return edges, histories
+
+
+def is_drift(half, e, clause):
+    """C10 quantifies over frames and resets; what the receiver does with / after
+    stop() is covered by the model but not by the statement of the property."""
+    return half == "recv" and (clause == "stop-bookkeeping" or e["op"] in STOP_OPS or e["pre"]["stopCode"] != -1)
+
+
+HARNESS_FIELDS = ("pre", "post", "out", "sid", "run", "step")
+
+
+def op_of(e):
+    return {k: v for k, v in e.items() if k not in HARNESS_FIELDS}
+
+
+def replay(check, S, stream_mod):
+    """--replay: re-run the recorded call sequence on the current tree and let
+    TLC judge its last edge again."""
+    import json
+    d = json.load(open(check.replay))["detail"]
+    if d.get("kind") == "model":
+        raise MachineryError("replay of a design-level counterexample: run the check itself, the TLC trace is in the replay file")
+    if d["half"] == "rangeset":
+        edges, _ = rangeset_edges(S, d["M"])
+        cand = [e for e in edges if e["pre"] == d["edge"]["pre"] and all(e.get(k) == d["edge"].get(k) for k in ("op", "a", "b"))]
+        fails = trace.validate(check, "TraceRangeSet", cand, constants=d["constants"], name="replay", shards=1)
+        check.cov["traces_validated_against_impl"] += len(cand)
+        for i, clause in fails:
+            check.violation("rangeset:%s:%s" % (clause, cand[i]["op"]), dict(d, clause=clause, edge=cand[i]))
+        check.sample({"replayed": cand[:1]})
+        return
+    half = d["half"]
+    x = Recv(stream_mod) if half == "recv" else Send(stream_mod)
+    apply_ = recv_apply if half == "recv" else send_apply
+    edges = []
+    for op in d["path"] + [d["op"]]:
+        pre = x.abs()
+        out = apply_(S, x, op)
+        edges.append(dict(op, pre=pre, out=out, post=x.abs()))
+    module = "TraceStreamRecv" if half == "recv" else "TraceStreamSend"
+    fails = trace.validate(check, module, edges, constants=d["constants"], name="replay", shards=1)
+    check.cov["traces_validated_against_impl"] += len(edges)
+    for e in edges:
+        check.count((half, repr(e)), nontrivial=True)
+    for i, clause in fails:
+        if clause == "harness-guard":
+            raise MachineryError("replayed call is outside the environment's alphabet: %r" % (edges[i],))
+        if is_drift(half, edges[i], clause):
+            check.drift(sig(half, edges[i], clause), dict(d, clause=clause, edge=edges[i]))
+        else:
+            check.violation(sig(half, edges[i], clause), dict(d, clause=clause, edge=edges[i]))
+    check.sample({"replayed_calls": len(edges), "last": edges[-1]})
+    check.cov["rule"] = "replay of one recorded call sequence; every edge of it judged by TLC"
 
 
 def nontrivial_recv(e):
@@ -310,15 +421,6 @@ def sig(half, e, clause):
     return "%s:%s:%s:%s:out=%s" % (half, clause, opd, facts, e["out"]["k"] if isinstance(e.get("out"), dict) else "")
 
 
-def reachable_abs(check, module, N, proj):
-    """TLC's own reachable state set for the same bound, via -dump."""
-    import os
-    dump = os.path.join(check.work, "tlc", module + ".dump")
-    cfg = "SPECIFICATION Spec\nCONSTANT N = %d\nINVARIANT TypeOk\n" % N + proj
-    r = check.run_tlc(module, cfg, name=module + "_M", extra=["-dump", dump])
-    return r, dump
-
-
 def run(check):
     check.build_overlay()
     import aioquic.quic.stream as stream_mod
@@ -326,15 +428,28 @@ def run(check):
     import aioquic.quic.packet_builder as builder_mod
     import aioquic.quic.rangeset as rangeset_mod
     S = {"stream": stream_mod, "packet": packet_mod, "builder": builder_mod, "rangeset": rangeset_mod}
+    if check.replay:
+        return replay(check, S, stream_mod)
     rnd = random.Random(check.seed)
     NR = 5 if check.quick else 6
     NS = 3 if check.quick else 4
     MR = 6 if check.quick else 7
 
     # (M) design-level model checking
-    for module, N, props in (("StreamRecv", NR, ["EndOnlyAtFinal", "NoRepeat", "Monotone"]),
+    # bound of the STOP_SENDING sub-state explored to closure / sampled
+    codesX, FX = (STOP_CODES[:1], 1) if check.quick else (STOP_CODES, 1)
+    codesV, FV = STOP_CODES, 3
+
+    def consts(half, N, codes=None, F=None):
+        c = "CONSTANT N = %d\n" % N
+        if half == "recv":
+            c += "CONSTANT Codes = {%s}\nCONSTANT F = %d\n" % (", ".join(map(str, codes)), F)
+        return c
+    constX = {"StreamRecv": consts("recv", NR, codesX, FX), "StreamSend": consts("send", NS)}
+
+    for module, N, props in (("StreamRecv", NR, ["EndOnlyAtFinal", "NoRepeat", "Monotone", "StopCarriesCode"]),
                              ("StreamSend", NS, ["FrameBytes"])):
-        cfg = "SPECIFICATION Spec\nCONSTANT N = %d\nINVARIANT TypeOk\n" % N + \
+        cfg = "SPECIFICATION Spec\n" + constX[module] + "INVARIANT TypeOk\n" + \
               "".join("PROPERTY %s\n" % p for p in props)
         r = check.run_tlc(module, cfg, name=module + "_M")
         if r.violated:
@@ -345,39 +460,55 @@ def run(check):
     # number of distinct abstract states of the model (outputs hidden by a VIEW)
     model_states = {}
     for module, N in (("StreamRecv", NR), ("StreamSend", NS)):
-        r = check.run_tlc(module, "SPECIFICATION Spec\nCONSTANT N = %d\nVIEW View\nINVARIANT TypeOk\n" % N,
+        r = check.run_tlc(module, "SPECIFICATION Spec\n" + constX[module] + "VIEW View\nINVARIANT TypeOk\n",
                           name=module + "_states")
         model_states[module + "_M"] = r.distinct
     model_states["RangeSet_M"] = [t["distinct"] for t in check.cov["tlc_runs"] if t["name"] == "RangeSet_M"][0]
 
     # (X) closure over concrete objects, every edge validated by TLC
+    big = 24 if check.quick else 64
     plans = [
-        ("recv", "TraceStreamRecv", lambda: Recv(stream_mod), recv_apply, recv_alphabet, NR, nontrivial_recv, "StreamRecv_M"),
-        ("send", "TraceStreamSend", lambda: Send(stream_mod), send_apply, send_alphabet, NS, nontrivial_send, "StreamSend_M"),
+        ("recv", "TraceStreamRecv", lambda: Recv(stream_mod), recv_apply,
+         lambda N, x: recv_alphabet(N, x, codesX, FX), lambda N, x: recv_alphabet(N, x, codesV, FV),
+         NR, nontrivial_recv, "StreamRecv_M", constX["StreamRecv"], consts("recv", big, codesV, FV)),
+        ("send", "TraceStreamSend", lambda: Send(stream_mod), send_apply, send_alphabet, send_alphabet,
+         NS, nontrivial_send, "StreamSend_M", constX["StreamSend"], consts("send", big)),
     ]
-    for half, module, make, apply_, alphabet, N, nontriv, mname in plans:
-        edges, seen = closure(S, make, apply_, alphabet, N, 400000)
+    for half, module, make, apply_, alphabet, alphabet_v, N, nontriv, mname, cX, cV in plans:
+        edges, seen, parents = closure(S, make, apply_, alphabet, N, 400000)
         abs_states = set()
-        for x in seen.values():
+        for x, _ in seen.values():
             a = x.abs()
             a.pop("held", None), a.pop("buf", None), a.pop("bufStart", None)
             abs_states.add(repr(sorted(a.items())))
         check.cov.setdefault("closure", {})[half] = {
             "N": N, "concrete_states": len(seen), "abstract_states": len(abs_states),
-            "edges": len(edges), "model_states": model_states.get(mname)}
+            "edges": len(edges), "model_states": model_states.get(mname),
+            # edges on which a disagreement is a VIOLATION (the alphabet of the statement);
+            # on the others (stop() calls and what follows them) it is SPEC-DRIFT
+            "edges_in_property_scope": sum(1 for e in edges if not is_drift(half, e, ""))}
         # long random runs on a larger stream
-        big = 24 if check.quick else 64
-        edges_v = random_edges(S, make, apply_, alphabet, big, rnd,
+        edges_v, histories = random_edges(S, make, apply_, alphabet_v, big, rnd,
                                runs=40 if check.quick else 400, steps=60)
-        fails = trace.validate(check, module, edges, constants="CONSTANT N = %d" % N, name=module + "_X")
-        fails_v = trace.validate(check, module, edges_v, constants="CONSTANT N = %d" % big, name=module + "_V")
+        fails = trace.validate(check, module, edges, constants=cX, name=module + "_X")
+        fails_v = trace.validate(check, module, edges_v, constants=cV, name=module + "_V")
         check.cov["traces_validated_against_impl"] += len(edges) + len(edges_v)
         for e in edges + edges_v:
-            check.count((half, e["op"], repr(e["pre"]), repr({k: v for k, v in e.items() if k not in ("pre", "post", "out")})),
+            check.count((half, e["op"], repr(e["pre"]), repr(op_of(e))),
                         nontrivial=nontriv(e))
-        for src, fl in ((edges, fails), (edges_v, fails_v)):
+        for src, fl, const in ((edges, fails, cX), (edges_v, fails_v, cV)):
             for i, clause in fl:
-                check.violation(sig(half, src[i], clause), {"half": half, "clause": clause, "edge": src[i]})
+                if clause == "harness-guard":
+                    # the driver made a call the environment cannot make: that is
+                    # a fault of this machinery, never a verdict about the code
+                    raise MachineryError("driver issued a call outside the environment's alphabet: %r" % (src[i],))
+                e = src[i]
+                detail = {"half": half, "clause": clause, "edge": e, "constants": const, "op": op_of(e),
+                          "path": path_to(parents, e["sid"]) if "sid" in e else histories[e["run"]][:e["step"]]}
+                if is_drift(half, e, clause):
+                    check.drift(sig(half, e, clause), detail)
+                    continue
+                check.violation(sig(half, e, clause), detail)
         check.sample({"half": half, "edge": edges[len(edges) // 2]})
         # every abstract state TLC reaches must be reached by the code as well
         # (the other inclusion follows from the validated edges)
@@ -393,7 +524,8 @@ def run(check):
     for e in edges:
         check.count(("rs", repr(e["pre"]), e["op"], e.get("a"), e.get("b")), nontrivial=bool(e["pre"]))
     for i, clause in fails:
-        check.violation("rangeset:%s:%s" % (clause, edges[i]["op"]), {"clause": clause, "edge": edges[i]})
+        check.violation("rangeset:%s:%s" % (clause, edges[i]["op"]),
+                        {"half": "rangeset", "clause": clause, "edge": edges[i], "M": MR, "constants": "CONSTANT M = %d" % MR})
     check.sample({"half": "rangeset", "edge": edges[len(edges) // 3]})
 
     check.cov["exhaustive"] = True
@@ -405,4 +537,8 @@ def run(check):
     check.cov["trusted_base"] = ["TLC 1.8", "harness projection QuicStreamReceiver/QuicStreamSender fields -> abstract record "
                                  "(reads _buffer, _buffer_start, _final_size, _ranges, _pending, _acked, ...)"]
     check.assumptions += ["payload bytes follow the driver convention Byte(o) = (31*o+7) mod 251 (overlapping frames carry consistent bytes)",
-                          "each emitted frame's fate is reported at most once (that is property C08)"]
+                          "each emitted frame's fate is reported at most once (that is property C08)",
+                          "environment discipline of connection.py: get_stop_frame/get_reset_frame are called only while "
+                          "stop_pending/reset_pending is set, and on_stop_sending_delivery/on_reset_delivery only for a frame "
+                          "that was emitted (they are the delivery handlers of the packets carrying those frames); "
+                          "at most F STOP_SENDING frames in flight (F=1 in the closure, 3 in the random runs)"]
